@@ -1277,7 +1277,8 @@ func stateAnyCommentStart(s *Scanner, c byte) state {
 		// (empty) comment instead of becoming its first byte.
 		return s.step(s, c)
 	} else if s.index < s.dataSize && s.data[s.index] == '#' { // third #
-		s.annotation = annotationNone
+		// The annotation state is kept: a block comment may be closed on the same
+		// line, inside the rule object of an inline annotation, which then goes on.
 		s.step = stateMultiLineComment
 		return scanContinue
 	}
